@@ -130,6 +130,13 @@ fn construct(ctor: u8, words: &[u64]) -> Option<Vec<u8>> {
 
 fn main() {
     mb2_model::panics::install_hook();
+    // the names buffer for ELF section names must sit at the same address in
+    // all four servers, or their transcripts would differ for that reason
+    if mb2_model::elfnames::install().is_none() {
+        eprintln!("transcript server: cannot map the names buffer at its fixed address");
+        std::process::exit(3);
+    }
+    let _ = mb2_model::panics::catch(mb2_model::warm::warmup);
     let mut g = Guarded::new(2 << 20);
     let stdin = std::io::stdin();
     let stdout = std::io::stdout();
